@@ -4,6 +4,7 @@ from facts import AnalysisBroken
 from rules import (check_init, nodeset, ev, Unevaluable, forced_edges, atom_from, reach, atomic_ops, ret_const, callpred)
 import stale
 from props import c01
+from props import deps
 
 EXPLANATION = (
     "Decides the structure behind 'unlock-and-wait is atomic': fiber_cond_wait registers itself (waiter_count++ then "
@@ -39,6 +40,8 @@ def run(ctx):
     c01.core_dependency(ctx, P, "core.dep", ('fiber_manager_wait_in_mpsc_queue', 'fiber_manager_wait_in_mpsc_queue_and_unlock', 'fiber_manager_wake_from_mpsc_queue', 'fiber_cond_wait', 'fiber_cond_signal', 'fiber_cond_broadcast'),
                         "the condition variable's sleep/wake path (wait_in_mpsc_queue_and_unlock / wake_from_mpsc_queue)",
                         'a waiter marked resumable while it is still running returns from fiber_cond_wait without a matching signal')
+    deps.depend(ctx, P, 'C15', 'queue.dep', "the condition variable's waiter queue (mpsc_fifo)",
+                'a waiter that the queue drops is never signalled', lambda x: x.rule.startswith(("mpsc.", "mpsc_fifo.")) or x.fn == "mpsc_fifo_init")
     w = P.fn("fiber_cond_wait")
     h = P.fn("fiber_manager_wait_in_mpsc_queue_and_unlock")
     o = ctx.ob("wait.atomic", w, "waiter_count is incremented before the enqueue; the caller's mutex is released only through mutex_to_unlock (no unlock "
